@@ -66,6 +66,22 @@ def routes(dim, call, sigma):
             elif name != "UnitDualQuaternion":
                 yield name + ":X.inv()*(X*p)", (lambda f=f: f(ha).inv() * np.asarray(f(ha) * P).flatten()), which
         return
+    if call["op"] == "many-inv":
+        hs = call["poses"]
+        P = np.array(pts[0][:dim], dtype=float)
+
+        def back(X):
+            Y = np.asarray(X * P, dtype=float)             # one column per pose value
+            Xi = X.inv()
+            return np.column_stack([np.asarray(Xi[k] * Y[:, k], dtype=float).flatten() for k in range(len(hs))])
+        if dim == 3:
+            yield "SE3[k].inv()", (lambda: back(SE3([gamma.T4(h, sigma) for h in hs]))), "full"
+            yield "SO3[k].inv()", (lambda: back(SO3([gamma.R3(h) for h in hs]))), "rot"
+            yield "UnitQuaternion[k].inv()", (lambda: back(UnitQuaternion([UnitQuaternion(gamma.qvec(h)) for h in hs]))), "rot"
+        else:
+            yield "SE2[k].inv()", (lambda: back(SE2([gamma.T3(h, sigma) for h in hs]))), "full"
+            yield "SO2[k].inv()", (lambda: back(SO2([gamma.T3(h)[:2, :2] for h in hs]))), "rot"
+        return
     if call["op"] == "one-to-many":
         h = call["pose"]
         if form == "matrix":
@@ -102,8 +118,65 @@ def routes(dim, call, sigma):
             yield "SO2[k]*", (lambda: SO2([gamma.T3(h)[:2, :2] for h in hs]) * P), "rot"
 
 
+TINY = {"1e-9": 1e-9, "1e-8": 1e-8, "1e-7": 1e-7, "4e-7": 4e-7, "1e-6": 1e-6, "1e-5": 1e-5, "2pi-1e-7": 2 * np.pi - 1e-7,
+        "pi-1e-9": np.pi - 1e-9, "pi-1e-7": np.pi - 1e-7, "pi-1e-5": np.pi - 1e-5, "pi": np.pi}
+
+
+def tiny_case(j, dim, e, sigma):
+    """a tiny rotation applied to a point through every route; expected = Rodrigues' formula from cos / sin"""
+    from spatialmath import SO2, SO3, SE3, UnitQuaternion
+    import spatialmath.base as base
+    import math
+    call = e["call"]
+    th = TINY[call["tag"]]
+    ax = np.array(call["axis"], dtype=float)
+    if dim == 2 and list(call["axis"]) != [0, 0, 1]:
+        return
+    u = ax / np.linalg.norm(ax)
+    p = np.array(call["pts"][0], dtype=float) * sigma
+    c, s_ = math.cos(th), math.sin(th)
+    # R p = p cos + (u x p) sin + u (u.p)(1 - cos), with 1 - cos = 2 sin^2(th/2) (no cancellation)
+    exp = p * c + np.cross(u, p) * s_ + u * float(np.dot(u, p)) * 2 * math.sin(th / 2) ** 2
+    K = np.array([[0, -u[2], u[1]], [u[2], 0, -u[0]], [-u[1], u[0], 0]])
+    R = np.eye(3) + s_ * K + 2 * math.sin(th / 2) ** 2 * (K @ K)
+    q = np.r_[math.cos(th / 2), math.sin(th / 2) * u]
+    mag = max(1e-300, float(np.max(np.abs(p))))
+    feat = "tiny-rotation;theta=%s;sigma=%g" % (call["tag"], sigma)
+    if dim == 3:
+        rts = {"SO3*": lambda: SO3(R, check=False) * p, "SE3*": lambda: SE3(base.r2t(R), check=False) * p,
+               "UnitQuaternion(q)*": lambda: UnitQuaternion(q) * p,
+               "UnitQuaternion.AngVec*": lambda: UnitQuaternion.AngVec(th, u) * p,
+               "UnitQuaternion(R)*": lambda: UnitQuaternion(SO3(R, check=False)) * p,
+               "base.qvmul": lambda: base.qvmul(q, p),
+               "UnitQuaternion(q)*(3x2)": lambda: np.asarray(UnitQuaternion(q) * np.column_stack([p, p]))[:, 1]}
+        if list(call["axis"]) in ([1, 0, 0], [0, 1, 0], [0, 0, 1]):
+            nm = "R" + "xyz"[call["axis"].index(1)]
+            rts["UnitQuaternion.%s*" % nm] = lambda: getattr(UnitQuaternion, nm)(th) * p
+            rts["SO3.%s*" % nm] = lambda: getattr(SO3, nm)(th) * p
+    else:
+        exp = exp[:2]
+        p2 = p[:2]
+        rts = {"SO2*": lambda: SO2(R[:2, :2], check=False) * p2, "SO2(theta)*": lambda: SO2(th) * p2}
+        mag = max(1e-300, float(np.max(np.abs(p2))))
+    for label, thunk in rts.items():
+        cid = (label, "tiny", call["tag"])
+        detail = {"kind": "tiny-rotation", "route": label, "theta": th, "axis": call["axis"], "point": p.tolist(), "expected": exp.tolist()}
+        try:
+            r = np.asarray(thunk(), dtype=float).flatten()
+        except Exception as ex:  # noqa: BLE001
+            j.fail("%s|%s|%s|raised-%s" % (PID, label, feat, type(ex).__name__), detail, cid)
+            continue
+        d = float(np.max(np.abs(r - exp))) if r.shape == exp.shape else float("inf")
+        if not (d <= TOL * mag):
+            j.fail("%s|%s|%s|wrong-point" % (PID, label, feat), dict(detail, distance=d, got=r.tolist()), cid)
+        else:
+            j.ok(cid)
+
+
 def run_case(j, dim, e, sigma):
     call = e["call"]
+    if call["op"] == "tiny-rotation":
+        return tiny_case(j, dim, e, sigma)
     n = len(e["out"])
     exp_full = rat(e["out"], sigma)[:dim, :]
     exp_rot = rat(e["outR"], sigma)[:dim, :]
@@ -112,7 +185,7 @@ def run_case(j, dim, e, sigma):
         # intermediate translations also set the data magnitude of the expression
         for h in (call["a"], call["b"]):
             mag = max(mag, gamma.tscale(h, sigma=sigma))
-    many = call["op"] == "many-to-one"
+    many = call["op"] in ("many-to-one", "many-inv")
     for label, thunk, which in routes(dim, call, sigma):
         exp = exp_full if which == "full" else exp_rot
         feat = "%s;%s;n=%d;sigma=%g" % (call["op"], call["form"], n, sigma)
